@@ -258,6 +258,11 @@ def shrink(t, v, fails):
                     yield (k, t[1], a), ('J', x)
             elif t[2] != ('s', G.NOANN, 'unit'):
                 yield (k, t[1], ('s', G.NOANN, 'unit')), v
+        elif k == 'k':
+            yield G.with_ann(t[2], t[1]), v[2]                      # the contents alone
+            for a, x in cands(t[2], v[2]):
+                if a[1][0] is None:
+                    yield (k, t[1], a), ('K', v[1], x, v[3])
         elif k in 'lS':
             xs = v[1]
             for i in range(len(xs)):
@@ -325,6 +330,9 @@ CORPUS = [
     (('m', G.NOANN, ('p', G.NOANN, ('s', ('owner', None), 'string'), ('o', G.NOANN, ('s', G.NOANN, 'nat'), ('s', G.NOANN, 'string'))), ('l', G.NOANN, ('s', G.NOANN, 'nat'))),
      ('m', [(('P', ('s', 'a'), ('L', ('I', 1))), ('l', [('I', 1)])), (('P', ('s', 'a'), ('R', ('s', 'z'))), ('l', []))])),
     (('O', G.NOANN, ('s', G.NOANN, 'unit')), ('J', ('U',))),
+    # the nested-option class inside a ticket (shrinks to the known `option (option unit)` input)
+    (('k', G.NOANN, ('O', G.NOANN, ('O', G.NOANN, ('s', G.NOANN, 'nat')))), ('K', 'tz1KjV2FmM27uiyejy9vBeYS3VaVN682Uso5', ('J', ('N',)), 1)),
+    (('k', G.NOANN, ('p', G.NOANN, ('s', G.NOANN, 'nat'), ('s', G.NOANN, 'nat'))), ('K', 'KT1BEqzn5Wx8uJrZNvuS9DVHmLvG9td3fDLi', ('P', ('I', 1), ('I', 2)), 10)),
     (('p', G.NOANN, ('s', ('', None), 'nat'), ('s', (None, 't'), 'nat')), ('P', ('I', 1), ('I', 2))),
     # former collision shapes (fixes/C12-1): declared before / after, pair / or, :type name, the first way out taken as well, nested
     (('o', G.NOANN, ('s', ('string_1', None), 'nat'), ('s', G.NOANN, 'string')), ('R', ('s', 'a'))),
